@@ -515,3 +515,188 @@ Proof.
   - intros a b [<-|[<-|[<-|[<-|[]]]]] [<-|[<-|[<-|[<-|[]]]]]; vm_compute; intros; try reflexivity; discriminate.
   - intros d [<-|[<-|[<-|[<-|[]]]]]; vm_compute; discriminate.
 Qed.
+
+(* ====================================================================================
+   incremental.Run with memory: collecting a report does not touch the memoised task diagnostics
+   ==================================================================================== *)
+Lemma nth_set_arr_other (h : heap) a a' v : (a' < a)%nat -> (a' < length h)%nat -> nth a' (set_arr h a v) [] = nth a' h [].
+Proof.
+  intros L1 L2. unfold set_arr. rewrite app_nth1 by (rewrite firstn_length; lia).
+  rewrite <- (firstn_skipn a h) at 2. rewrite app_nth1 by (rewrite firstn_length; lia). reflexivity.
+Qed.
+
+Lemma nth_set_arr_same (h : heap) a v : (a < length h)%nat -> nth a (set_arr h a v) [] = v.
+Proof.
+  intros L. unfold set_arr. rewrite app_nth2 by (rewrite firstn_length; lia).
+  rewrite firstn_length. replace (a - Nat.min a (length h))%nat with 0%nat by lia. reflexivity.
+Qed.
+
+Lemma length_set_arr (h : heap) a v : (length h <= length (set_arr h a v))%nat.
+Proof. unfold set_arr. rewrite app_length, firstn_length. cbn [length]. rewrite skipn_length. lia. Qed.
+
+Lemma length_set_arr_in (h : heap) a v : (a < length h)%nat -> length (set_arr h a v) = length h.
+Proof. intros L. unfold set_arr. rewrite app_length, firstn_length. cbn [length]. rewrite skipn_length. lia. Qed.
+
+Definition fresh (n0 : nat) (s : slice) : Prop := match sl_arr s with None => True | Some a => (n0 <= a)%nat end.
+(* the report slice is well formed *)
+Definition rep_ok (h : heap) (s : slice) : Prop :=
+  match sl_arr s with None => True | Some a => (a < length h)%nat /\ (sl_len s <= length (nth a h []))%nat end.
+
+Lemma go_append_spec spare n0 h s xs h' s' :
+  (n0 <= length h)%nat -> fresh n0 s -> rep_ok h s -> go_append spare h s xs = (h', s') ->
+  (forall a', (a' < n0)%nat -> nth a' h' [] = nth a' h []) /\ (n0 <= length h')%nat /\ fresh n0 s' /\ rep_ok h' s' /\
+  read h' s' = read h s ++ xs.
+Proof.
+  intros L F R E. unfold go_append in E. destruct xs as [|x xs0].
+  - injection E as <- <-. rewrite app_nil_r. auto.
+  - remember (x :: xs0) as xs eqn:EX in *. unfold fresh, rep_ok, read in *. destruct (sl_arr s) as [a|] eqn:SA.
+    + destruct R as [R1 R2].
+      destruct (Nat.leb (sl_len s + length xs) (length (nth a h []))) eqn:C; injection E as <- <-; cbn [sl_arr sl_len].
+      * apply Nat.leb_le in C. split; [|split; [|split; [|split]]].
+        -- intros a' La. apply nth_set_arr_other; lia.
+        -- pose proof (length_set_arr h a (write_at (nth a h []) (sl_len s) xs)). lia.
+        -- exact F.
+        -- rewrite length_set_arr_in by auto. split; auto. rewrite nth_set_arr_same by auto.
+           unfold write_at. rewrite !app_length, firstn_length, skipn_length. lia.
+        -- rewrite nth_set_arr_same by auto. unfold write_at.
+           assert (LF : length (firstn (sl_len s) (nth a h [])) = sl_len s) by (rewrite firstn_length; lia).
+           rewrite <- LF at 1. rewrite firstn_app_2. f_equal.
+           rewrite firstn_app, firstn_all, Nat.sub_diag. cbn [firstn]. now rewrite app_nil_r.
+      * split; [|split; [|split; [|split]]].
+        -- intros a' La. rewrite app_nth1 by lia. reflexivity.
+        -- rewrite app_length. lia.
+        -- lia.
+        -- rewrite app_length. cbn [length]. split; [lia|]. rewrite app_nth2 by lia. rewrite Nat.sub_diag. cbn [nth].
+           rewrite !app_length, firstn_length. lia.
+        -- rewrite app_nth2 by lia. rewrite Nat.sub_diag. cbn [nth].
+           assert (LF : length (firstn (sl_len s) (nth a h [])) = sl_len s) by (rewrite firstn_length; lia).
+           rewrite <- LF at 1. rewrite firstn_app_2. f_equal.
+           rewrite firstn_app, firstn_all, Nat.sub_diag. cbn [firstn]. now rewrite app_nil_r.
+    + injection E as <- <-. cbn [sl_arr sl_len]. split; [|split; [|split; [|split]]].
+      * intros a' La. rewrite app_nth1 by lia. reflexivity.
+      * rewrite app_length. lia.
+      * lia.
+      * rewrite app_length. cbn [length]. split; [lia|]. rewrite app_nth2 by lia. rewrite Nat.sub_diag. cbn [nth].
+        rewrite app_length. lia.
+      * rewrite app_nth2 by lia. rewrite Nat.sub_diag. cbn [nth app].
+        rewrite firstn_app, firstn_all, Nat.sub_diag. cbn [firstn]. now rewrite app_nil_r.
+Qed.
+
+Definition task_old (n0 : nat) (t : slice) : Prop := match sl_arr t with None => True | Some a => (a < n0)%nat end.
+
+Lemma read_old n0 (h h' : heap) t :
+  task_old n0 t -> (forall a', (a' < n0)%nat -> nth a' h' [] = nth a' h []) -> read h' t = read h t.
+Proof. unfold task_old, read. destruct (sl_arr t); auto. intros L E. now rewrite E. Qed.
+
+Lemma collect_spec spare n0 tasks : forall h rep h' rep',
+  (n0 <= length h)%nat -> fresh n0 rep -> rep_ok h rep -> Forall (task_old n0) tasks ->
+  collect spare h rep tasks = (h', rep') ->
+  (forall a', (a' < n0)%nat -> nth a' h' [] = nth a' h []) /\ (n0 <= length h')%nat /\ fresh n0 rep' /\ rep_ok h' rep' /\
+  read h' rep' = read h rep ++ concat (map (read h) tasks).
+Proof.
+  induction tasks as [|t r IH]; intros h rep h' rep' L F R T E; cbn [collect] in E.
+  - injection E as <- <-. cbn. rewrite app_nil_r. auto.
+  - destruct (go_append spare h rep (read h t)) as [h1 rep1] eqn:G.
+    destruct (go_append_spec _ _ _ _ _ _ _ L F R G) as (O1 & L1 & F1 & R1 & RD1).
+    inversion T as [|? ? T1 T2]; subst.
+    destruct (IH _ _ _ _ L1 F1 R1 T2 E) as (O2 & L2 & F2 & R2 & RD2).
+    split; [|split; [|split; [|split]]]; auto.
+    + intros a' La. rewrite O2, O1; auto.
+    + rewrite RD2, RD1. cbn [map concat]. rewrite <- app_assoc. f_equal. f_equal.
+      f_equal. apply map_ext_in. intros t' Ht'. rewrite Forall_forall in T2. eapply read_old; eauto.
+Qed.
+
+Lemma canon_inplace_spec canon n0 h rep h' rep' :
+  (forall l, length (canon l) <= length l)%nat ->
+  (n0 <= length h)%nat -> fresh n0 rep -> rep_ok h rep -> canon_inplace canon h rep = (h', rep') ->
+  (forall a', (a' < n0)%nat -> nth a' h' [] = nth a' h []) /\ (n0 <= length h')%nat /\
+  read h' rep' = canon (read h rep).
+Proof.
+  intros CL L F R E. unfold canon_inplace, fresh, rep_ok, read in *. destruct (sl_arr rep) as [a|] eqn:SA.
+  - destruct R as [R1 R2]. injection E as <- <-. cbn [sl_arr sl_len]. split; [|split].
+    + intros a' La. apply nth_set_arr_other; lia.
+    + pose proof (length_set_arr h a (canon (firstn (sl_len rep) (nth a h [])) ++
+        repeat zero_diag (sl_len rep - length (canon (firstn (sl_len rep) (nth a h [])))) ++ skipn (sl_len rep) (nth a h []))). lia.
+    + rewrite nth_set_arr_same by auto. rewrite firstn_app, firstn_all, Nat.sub_diag. cbn [firstn]. now rewrite app_nil_r.
+  - injection E as <- <-. rewrite SA. split; [auto|split; [auto|]].
+    specialize (CL []). cbn in CL. destruct (canon []); [reflexivity|cbn in CL; lia].
+Qed.
+
+(* Run builds its report in an array of its own: every array that existed before is unchanged, so every
+   memoised task still has exactly its diagnostics, and the report is Canonicalize of their concatenation *)
+Theorem run_heap_spec_lemma : forall spare canon h tasks h' rep',
+  (forall l, length (canon l) <= length l)%nat ->
+  Forall (task_old (length h)) tasks ->
+  run_heap spare canon h tasks = (h', rep') ->
+  (forall a, (a < length h)%nat -> nth a h' [] = nth a h []) /\ (length h <= length h')%nat /\
+  (forall t, In t tasks -> read h' t = read h t) /\
+  read h' rep' = canon (concat (map (read h) tasks)).
+Proof.
+  intros spare canon h tasks h' rep' CL T E. unfold run_heap in E.
+  destruct (collect spare h (mkslice None 0) tasks) as [h1 rep1] eqn:C.
+  destruct (collect_spec spare (length h) tasks h (mkslice None 0) h1 rep1) as (O1 & L1 & F1 & R1 & RD1); auto; try exact I.
+  destruct (canon_inplace_spec canon (length h) h1 rep1 h' rep' CL L1 F1 R1 E) as (O2 & L2 & RD2).
+  assert (O : forall a, (a < length h)%nat -> nth a h' [] = nth a h []) by (intros a La; rewrite O2, O1; auto).
+  split; [exact O|]. split; [exact L2|]. split.
+  - intros t Ht. rewrite Forall_forall in T. eapply read_old; eauto.
+  - rewrite RD2, RD1. reflexivity.
+Qed.
+
+Theorem run_report_leaves_task_diagnostics_unchanged_lemma : forall spare canon h tasks h' rep',
+  (forall l, length (canon l) <= length l)%nat -> Forall (task_old (length h)) tasks ->
+  run_heap spare canon h tasks = (h', rep') -> forall t, In t tasks -> read h' t = read h t.
+Proof. intros. eapply run_heap_spec_lemma; eauto. Qed.
+
+(* hence a second Run of the same queries on the same executor (same tasks, nothing evicted) reports the
+   same, whatever the first one allocated *)
+Theorem run_heap_rerun_same_lemma : forall spare spare' canon h tasks h1 rep1 h2 rep2,
+  (forall l, length (canon l) <= length l)%nat -> Forall (task_old (length h)) tasks ->
+  run_heap spare canon h tasks = (h1, rep1) -> run_heap spare' canon h1 tasks = (h2, rep2) ->
+  read h2 rep2 = read h1 rep1.
+Proof.
+  intros spare spare' canon h tasks h1 rep1 h2 rep2 CL T E1 E2.
+  destruct (run_heap_spec_lemma _ _ _ _ _ _ CL T E1) as (O1 & L1 & RT1 & RD1).
+  assert (T' : Forall (task_old (length h1)) tasks).
+  { rewrite Forall_forall in *. intros t Ht. specialize (T t Ht). unfold task_old in *. destruct (sl_arr t); auto. lia. }
+  destruct (run_heap_spec_lemma _ _ _ _ _ _ CL T' E2) as (_ & _ & _ & RD2).
+  rewrite RD2, RD1. f_equal. f_equal. apply map_ext_in. intros t Ht. now apply RT1.
+Qed.
+
+(* the connection with the relational statement: the report is an outcome of run_report on the task
+   reports, for any Canonicalize that is an outcome of canon_rel *)
+Theorem run_heap_is_run_report_lemma : forall keep spare canon h tasks h' rep',
+  (forall l, canon_rel keep l (canon l)) -> (forall l, length (canon l) <= length l)%nat ->
+  Forall (task_old (length h)) tasks -> run_heap spare canon h tasks = (h', rep') ->
+  run_report keep (map (read h) tasks) (read h' rep').
+Proof.
+  intros keep spare canon h tasks h' rep' CR CL T E.
+  destruct (run_heap_spec_lemma _ _ _ _ _ _ CL T E) as (_ & _ & _ & RD). rewrite RD. apply CR.
+Qed.
+
+(* the seeded variant (take over the first task slice instead of copying it) does change a task: the
+   root task has five diagnostics and room for three more, two leaves have one each *)
+Definition sd (m : N) : cdiag := mkcd zero_span 0 [] [m] 2 0.
+Definition alias_heap : heap :=
+  [[sd 114; sd 115; sd 116; sd 117; sd 118; zero_diag; zero_diag; zero_diag]; [sd 97]; [sd 122]].
+Definition alias_tasks : list slice := [mkslice (Some 0%nat) 5; mkslice (Some 1%nat) 1; mkslice (Some 2%nat) 1].
+
+Theorem run_alias_changes_task_lemma :
+  Forall (task_old (length alias_heap)) alias_tasks /\
+  read alias_heap (mkslice (Some 0%nat) 5) = [sd 114; sd 115; sd 116; sd 117; sd 118] /\
+  read (fst (run_heap_alias (fun _ => 0%nat) (canonicalize false) alias_heap alias_tasks)) (mkslice (Some 0%nat) 5)
+    = [sd 97; sd 114; sd 115; sd 116; sd 117] /\
+  read (fst (run_heap (fun _ => 0%nat) (canonicalize false) alias_heap alias_tasks)) (mkslice (Some 0%nat) 5)
+    = [sd 114; sd 115; sd 116; sd 117; sd 118].
+Proof.
+  split; [repeat constructor|]. split; [reflexivity|]. split; vm_compute; reflexivity.
+Qed.
+
+(* canonicalize never makes the list longer *)
+Lemma dedup_spec_length l : (length (dedup_spec l) <= length l)%nat.
+Proof. induction l as [|d r IH]; cbn [dedup_spec length]; auto. destruct (dropped d r); cbn [length]; lia. Qed.
+
+Lemma canonicalize_length keep l : (length (canonicalize keep l) <= length l)%nat.
+Proof.
+  unfold canonicalize, canonicalize_c. pose proof (Permutation_length (isort_perm dcmp l)) as P.
+  destruct keep; [lia|]. rewrite dedup_eq. pose proof (dedup_spec_length (isort_c dcmp l)). lia.
+Qed.
